@@ -336,6 +336,9 @@ def dag_oracle(case, o):
     fails = o["raised"]
     if not fails:
         return None if o["verdict"] == "ok" else f"spurious-error: nothing raised but run ended {o['verdict']}"
+    if isinstance(o["verdict"], list) and o["verdict"][0] == "RuntimeError":
+        return ("hang: the composite kept waiting although no job was outstanding (a finished child is still "
+                f"registered as running): {o['verdict'][1]}")
     if any(o["running"]) or o["wf"][1] or o["pending_jobs"]:
         return "left-running: a node is still running (or a job still out) after the outermost run ended"
     reg_fails = [t for t in fails if t < 100]
@@ -382,8 +385,14 @@ def _exec_failure(case, o):
 
 def _start_failure_with_jobs_out(case, o):
     """cause predicate of S26: a local child raised during the starting phase while an executor sibling was out"""
-    direct = isinstance(o["verdict"], list) and o["verdict"][0] in ("UserExc", "Readiness") or case["suppress"]
-    return bool(direct) and (any(nd["ex"] for nd in case["nodes"]) or bool(case["macro"] and case["macro"]["ex"]))
+    direct = isinstance(o["verdict"], list) and o["verdict"][0] in ("UserExc", "Readiness") or \
+        (case["suppress"] and o["verdict"] == "ok")
+    # exactly the S26 pattern: everything still marked running is a sibling whose job is genuinely still out, and
+    # some LOCAL child raised (a job that came back -- failed or not -- and is still marked running is not S26)
+    n = len(case["nodes"])
+    still = [i for i, r in enumerate(o["running"]) if r]
+    local_raise = any((t < 100 and not case["nodes"][t]["ex"]) or (t >= 100 and not case["macro"]["ex"]) for t in o["raised"])
+    return bool(direct) and local_raise and bool(o["pending_jobs"]) and all(i in o["pending_jobs"] for i in still)
 
 
 # =========================================================================== framework API
